@@ -124,7 +124,7 @@ def h_symtab(ctx):
     k = cfg['k']
     ctx.outcome('ok')
     ctx.check_eq('symtab/num_symbols', symtab.num_symbols(), k)
-    got = list(symtab.iter_symbols())
+    got = ctx.drain(symtab.iter_symbols())
     ctx.check_eq('symtab/iter/count', len(got), k)
     for i, (s, w) in enumerate(zip(got, syms)):
         ctx.check_eq('symtab/st_value', s['st_value'], w['st_value'])
@@ -194,7 +194,7 @@ def h_syminfo(ctx):
     sec = SEC.SUNWSyminfoTableSection(_shdr(sh_type='SHT_SUNW_syminfo', sh_offset=0, sh_size=4 * (k + 1), sh_entsize=4), '.SUNW_syminfo', elf, symtab)
     ctx.outcome('ok')
     ctx.check_eq('syminfo/num_symbols', sec.num_symbols(), k)
-    got = list(sec.iter_symbols())
+    got = ctx.drain(sec.iter_symbols())
     ctx.check_eq('syminfo/count', len(got), k)
     for i, s in enumerate(got):
         _enum_ok(ctx, 'syminfo/boundto', s['si_boundto'], recs[i + 1][0])
